@@ -8,6 +8,16 @@ and == `before` when the directive names another rule or is out of scope.
 A case fixes (linter family, language, directive form, placement in/out of scope, naming target/other)
 and the file; the check then tries EVERY rule-name spelling for that cell, so that "this linter ignores
 this form altogether" is one root cause (signature ...|unsupported) rather than six.
+
+Context dimension: a file a user adds a directive to usually has directives already. Every inline cell therefore repeats
+the step once more (one spelling) in a file that already carries TWO other correct directives - one earlier in the file
+around a neutral statement, one later on the last violation of the target rule; each is one of {closed ignore-start/end
+block, ignore-next-line, same-line} x {names the target rule, names another rule, bare}, enumerated through the matrix so
+that every (form, placement, naming) group meets every kind. Oracle, from the statement alone: directives are independent -
+(1) the file with the two earlier directives == directive-free result minus what each of them names in its own scope
+(signature ...|two-directives:<later>+<earlier>|...), (2) adding the directive under test to that file removes exactly its own
+rule in its own scope (signature ...|<form>|beside-other-directives|...). Line and block scopes never overlap or nest
+(nesting is left open by the docs).
 """
 from __future__ import annotations
 
@@ -19,19 +29,22 @@ from vf.engine import Case, Failure, h
 from vf.project import Project
 
 ID = "C04"
-TECHNIQUE = "exhaustive matrix (linter x language x directive form x placement x naming x spelling) over Hypothesis-drawn multi-violation files; two-run metamorphic oracle on violation multisets"
+TECHNIQUE = "exhaustive matrix (linter x language x directive form x placement x naming x spelling x directives already in the file) over Hypothesis-drawn multi-violation files; two-run metamorphic oracle on violation multisets"
 RULE = (
     "case = matrix cell (linter family, language, form in {same-line, ignore-next-line, ignore-start/end block, ignore-file, "
     "repository pattern, linter-level ignore pattern}, placement in/out of scope, naming target/other rule) + a drawn file composed "
     "of >=2 seeds of the target family, seeds of 2 other families and filler; every rule-name spelling (full id, linter prefix, "
     "prefix.*, deprecated alias in its three forms, each also in upper and Title case, bare) is tried inside the case. Non-trivial: the file has >=2 violations of the "
-    "target rule and >=1 of another rule, and the directive is expected to remove >=1 and leave >=1. Distinct = cell x seed shape."
+    "target rule and >=1 of another rule, and the directive is expected to remove >=1 and leave >=1. Distinct = cell x seed shape. "
+    "Each inline cell additionally repeats the step (one spelling, cycling) in a file that already carries two other directives (earlier one around a "
+    "neutral statement, later one on the last target violation; kind in {block, next-line, same-line} x {target, other, bare} enumerated per cell)."
 )
 ASSUMPTIONS = [
     "directives are appended only to complete single-line statements / inserted as whole-line comments between statements",
     "other rules' seeds are separate top-level definitions, never inside the function/class that carries the directive (method/class-level ignore is not under test)",
     "for cross-file rules (dry, stringly-typed) a violation is identified by (rule, file, line); its message names counterpart locations and may legitimately change",
     "lazy-ignores output is excluded (the statement exempts it)",
+    "line and block directives that share a file have disjoint, non-nested scopes on different statements (what nested or overlapping blocks mean is not documented); only an ignore-file header spans them",
 ]
 BUDGET_S = {"quick": 150, "thorough": 1500}
 
@@ -71,8 +84,20 @@ def families_for(lang):
     return fams + ["combo_" + lang]
 
 
+# the directives a file may already carry when the directive under test is added (context dimension)
+PRIOR_KINDS = [(pform, pnaming) for pform in ("block", "nextline", "sameline") for pnaming in ("target", "other", "bare")]
+CTX_SPELLINGS = ("full", "prefix", "wild", "upper", "bare")
+
+
+def context_for(idx):
+    """idx = running number of the cell inside its (form, placement, naming) group: the 9 kinds of the earlier directive
+    cycle fastest, so every group meets every kind; the later directive and the spelling move at coprime strides."""
+    return {"before": list(PRIOR_KINDS[idx % 9]), "after": list(PRIOR_KINDS[(2 * idx + idx // 9) % 9]), "sp": CTX_SPELLINGS[idx % 5]}
+
+
 def matrix():
     cells = []
+    group = Counter()
     for lang in ("py", "ts", "js", "rs"):
         for fam in families_for(lang):
             for form in FORMS:
@@ -89,7 +114,9 @@ def matrix():
                                     pkg = "pkg" if (len(cells) + pat) % 2 == 0 else ".gen"
                                     cells.append({"lang": lang, "family": fam, "form": form, "placement": placement, "naming": naming, "pattern": pat, "carrier": carrier, "pkg": pkg})
                         else:
-                            cells.append({"lang": lang, "family": fam, "form": form, "placement": placement, "naming": naming})
+                            g = (form, placement, naming)
+                            cells.append({"lang": lang, "family": fam, "form": form, "placement": placement, "naming": naming, "ctx": context_for(group[g])})
+                            group[g] += 1
     return cells
 
 
@@ -265,6 +292,56 @@ PATTERNS_IN = ["{pkg}/main{ext}", "{pkg}/**", "**/main{ext}", "*{ext}", "{pkg}/"
 PATTERNS_OUT = ["{pkg}/other{ext}", "lib/**", "**/mainx{ext}", "*.zz", "{bare}/"]  # {bare}: the directory name without its first character
 
 
+def _added(new, old):
+    """The lines of `new` that `old` does not have (multiset difference, in the order of `new`)."""
+    rest = Counter(old)
+    out = []
+    for l in new:
+        if rest[l] > 0:
+            rest[l] -= 1
+        else:
+            out.append(l)
+    return out
+
+
+def _strip_tails(vs, tails):
+    """Some messages quote the source line: take appended same-line directive comments out again."""
+    out = []
+    for v in vs:
+        m = v["message"]
+        for t in sorted(tails, key=len, reverse=True):  # a bare `ignore` tail is a prefix of every named one
+            m = m.replace(t, "").replace(t.strip(), "")
+        out.append({**v, "message": m.rstrip()})
+    return out
+
+
+def _rstrip_keys(counter):
+    return Counter({tuple(x.rstrip() if isinstance(x, str) else x for x in k): n for k, n in counter.items()})
+
+
+def add_priors(ctx, src_lines, main, anchor, last, neutral, rule, other_rule, c, span):
+    """The context: the file already carries two correct directives before the one under test is added - one EARLIER
+    in the file around a neutral statement (second filler), one LATER on the last violation of the target rule.
+    -> (lines, shift old_line -> new_line, removed predicate on violations of the directive-free file, descriptions, same-line tails)"""
+    names = {"target": rule, "other": other_rule, "bare": ""}
+    lines = list(src_lines)
+    shifts, scopes, descs, tails = [], [], [], []
+    # the later one first: inserting it leaves the line numbers above it as they are
+    for where, tgt, sp_ in (("after", last, span), ("before", neutral, 1)):
+        pform, pnaming = ctx[where]
+        name = names[pnaming]
+        new, shift, in_scope = apply_directive(lines, pform, tgt, tgt, name, c, "in", span=sp_ if pform == "block" else 1)
+        added = _added(new, lines)
+        descs.append(f"{where}: {added[0].strip()}")
+        if pform == "sameline":
+            tails.append(added[0][added[0].index(f"  {c} thailint:"):])
+        lines = new
+        shifts.append(shift)
+        scopes.append((in_scope, name))
+    removed = lambda v: v["file_path"] == main and any(sc(v["line"]) and (not nm or v["rule_id"] == nm) for sc, nm in scopes)  # noqa: E731
+    return lines, (lambda l: shifts[1](shifts[0](l))), removed, descs, tails
+
+
 def key_of(v, cross_rule_prefix):
     if cross_rule_prefix and v["rule_id"].startswith(cross_rule_prefix):
         return (v["rule_id"], v["file_path"], v["line"])
@@ -309,8 +386,48 @@ def check(case) -> Case:
 
         spellings = SPELLINGS if form in ("sameline", "nextline", "block", "file") else ("n/a",)
         verdicts = {}
-        for sp in spellings:
+        span = 5 if fam == "dry" else 1
+        runs = [(sp, False) for sp in spellings]
+        cx = case.get("ctx") if form in ("sameline", "nextline", "block", "file") else None
+        if cx:
+            runs.append((cx["sp"] if not (cx["sp"] == "bare" and naming != "target") else "full", True))
+            labels += [f"ctx-before={cx['before'][0]}-{cx['before'][1]}", f"ctx-after={cx['after'][0]}-{cx['after'][1]}"]
+        plain = (src_lines, before, anchor)
+        for sp, inctx in runs:
             named_rule = rule if naming == "target" else other_rule  # "colocated": the other rule on the anchor line
+            src_lines, before, anchor = plain
+            if inctx:
+                # the same step once more, in a file that already carries two other directives
+                last = tviol[-1]["line"]
+                nfill = len(seeds.filler(lang, 41).lines)
+                neutral = nfill + 3  # body line of the second filler
+                if verdicts.get(sp, ("none",))[0] != "ok" or other_rule is None or last < anchor + span or {neutral, neutral + 1} & viol_lines:
+                    labels.append("ctx-skipped")
+                    continue
+                src_lines, pshift, premoved, pdescs, ptails = add_priors(cx, src_lines, main, anchor, last, neutral, rule, other_rule, c, span)
+                ctxfiles = dict(files)
+                ctxfiles[main] = "\n".join(src_lines) + "\n"
+                with Project(ctxfiles, config=config or None) as q:
+                    before2, an0 = lint_all(q, cmds)
+                ctxdesc = {"context": pdescs, "file_before": ctxfiles[main]}
+                if an0:
+                    failures.append(Failure(f"{cell}|anomaly-context", {"anomalies": an0, **ctxdesc}))
+                    continue
+                exp0 = Counter(key_of({**v, "line": pshift(v["line"])} if v["file_path"] == main else v, cross_prefix) for v in before if not premoved(v))
+                got0 = Counter(key_of(v, cross_prefix) for v in _strip_tails(before2, ptails))
+                if got0 != _rstrip_keys(exp0):
+                    # two directives, each correct on its own (that is what the plain cells check), do not add up
+                    kinds = sorted({(k[0].split(".")[0], "not-suppressed") for k in got0 - _rstrip_keys(exp0)} | {(k[0].split(".")[0], "over-suppressed") for k in _rstrip_keys(exp0) - got0})
+                    for linter, kind in kinds:
+                        failures.append(Failure(f"{linter}|{lang}|two-directives:{cx['after'][0]}+{cx['before'][0]}|{kind}",
+                                                {"cell": {k: case[k] for k in case if k != "fill"}, "expected-not-observed": [list(k) for k in _rstrip_keys(exp0) - got0][:4],
+                                                 "observed-not-expected": [list(k) for k in got0 - _rstrip_keys(exp0)][:4], **ctxdesc}))
+                    continue
+                before = _strip_tails(before2, ptails) if ptails else before2
+                anchor = pshift(anchor)
+                if not any(v["file_path"] == main and v["line"] == anchor and v["rule_id"] == rule for v in before):
+                    labels.append("ctx-skipped")
+                    continue
             if form in ("repo", "linter"):
                 ext = seeds.EXT[lang]
                 pidx = case.get("pattern", case["fill"]["pattern"])
@@ -366,7 +483,9 @@ def check(case) -> Case:
                     removed = lambda v, in_scope=in_scope, rmatch=rmatch: v["file_path"] == main and in_scope(v["line"]) and rmatch(v["rule_id"])  # noqa: E731
                 with Project(newfiles, config=config or None) as q:
                     after, an2 = lint_all(q, cmds)
-                desc = {"directive": [l for l in new_lines if "thailint:" in l][0].strip(), "spelling": sp}
+                desc = {"directive": _added(new_lines, src_lines)[0].strip(), "spelling": sp}
+                if inctx:
+                    desc["context"] = pdescs
             if an2:
                 failures.append(Failure(f"{cell}|anomaly-after", {"anomalies": an2, **desc}))
                 continue
@@ -380,15 +499,18 @@ def check(case) -> Case:
                 if v["file_path"] == main:
                     v2["line"] = shift(v["line"])
                 expected[key_of(v2, cross_prefix)] += 1
+            tails = list(ptails) if inctx else []
             if form == "sameline":
                 # some messages quote the source line; take the appended comment out again
-                tail = [l for l in new_lines if "thailint:" in l][0]
-                tail = tail[tail.index(f"  {c} thailint:"):]
-                after = [{**v, "message": v["message"].replace(tail, "").replace(tail.strip(), "").rstrip()} for v in after]
-                expected = Counter({tuple(x.rstrip() if isinstance(x, str) else x for x in k): n for k, n in expected.items()})
+                tail = _added(new_lines, src_lines)[0]
+                tails.append(tail[tail.rindex(f"  {c} thailint:"):])
+            if tails:
+                after = _strip_tails(after, tails)
+                expected = _rstrip_keys(expected)
             got = Counter(key_of(v, cross_prefix) for v in after)
+            vkey = ("ctx", sp) if inctx else sp
             if got == expected:
-                verdicts[sp] = ("ok", n_removed)
+                verdicts[vkey] = ("ok", n_removed)
                 continue
             missing = expected - got  # expected to stay but gone
             extra_ = got - expected  # expected to go (or never there) but present
@@ -397,7 +519,17 @@ def check(case) -> Case:
                 per.setdefault((k[0].split(".")[0], "not-suppressed"), []).append(list(k))
             for k in missing:
                 per.setdefault((k[0].split(".")[0], "over-suppressed"), []).append(list(k))
-            verdicts[sp] = ("bad", per, {**desc, "file_after": newfiles[main] if form not in ("repo", "linter") else None})
+            verdicts[vkey] = ("bad", per, {**desc, "file_after": newfiles[main] if form not in ("repo", "linter") else None})
+        src_lines, before, anchor = plain
+        # the step inside a file that already has directives: its own root-cause class (the same spelling passed in the plain file)
+        for vkey in [k for k in verdicts if isinstance(k, tuple)]:
+            v = verdicts.pop(vkey)
+            labels.append("ctx-run")
+            if v[0] == "ok":
+                continue
+            for (linter, kind), items in sorted(v[1].items()):
+                failures.append(Failure(f"{linter}|{lang}|{form}|beside-other-directives|{kind}",
+                                        {"cell": {k: case[k] for k in case if k != "fill"}, "violations": items[:4], **v[2]}))
         ok = {sp: v for sp, v in verdicts.items() if v[0] == "ok"}
         # aggregate per (linter, kind): which spellings failed
         agg = {}
